@@ -468,7 +468,8 @@ def _xyz2thetaphi(x, y, z):
     """
     returns theta, phi in radians relative to the SDSS node at ra=95 degrees
     """
-    phi = arcsin(z)
+    # arctan2 is accurate near the poles, where arcsin is not
+    phi = arctan2(z, np.sqrt(x * x + y * y))
     theta = arctan2(y, x)
 
     return theta, phi
@@ -733,8 +734,9 @@ def eq2sdss(ra_in, dec_in, dtype="f8"):
     # generate clambda, ceta
     # do things in place to save memory
 
-    # clambda = -arcsin( x ) (not a copy clambda=x)
-    arcsin(x, x)
+    # clambda = -arcsin( x ) (not a copy clambda=x).  Use arctan2, which
+    # is accurate near the survey poles where arcsin is not
+    arctan2(x, np.sqrt(y * y + z * z), x)
     clambda = x
     clambda *= -1
 
@@ -795,7 +797,7 @@ def sdss2eq(clambda_in, ceta_in, dtype="f8"):
     z = sin(ceta + _sdsspar["etapole"]) * cos(clambda)
 
     ra = arctan2(y, x) + _sdsspar["node"]
-    dec = arcsin(z)
+    dec = arctan2(z, np.sqrt(x * x + y * y))
 
     ra *= R2D
     dec *= R2D
